@@ -190,7 +190,7 @@ Proof.
   intros S Hck. unfold dom_ensure_ck. destruct (d_ck S) eqn:E.
   - cbn [d_primes d_ck]. repeat split; auto; try (right; reflexivity).
   - destruct Hck as [Hck|Hck]; [congruence|]. repeat split; auto; try (rewrite E; auto).
-    right. rewrite E. exact Hck.
+    right. exact Hck.
 Qed.
 
 Lemma dom_RnsToMixedRadix_spec : forall S rs, dom_wf S ->
@@ -545,5 +545,5 @@ Proof.
   split; [split|]; repeat constructor; try lia; reflexivity.
 Qed.
 Example end_to_end_example :
-  snd (int_RnsToRing (ieval FromCk (Icopy (Iprod (Irns (Imk [7; 10; 9; 11]) [1; 1; 1; 1])))) [6; 0; 8; 3]) = 440.
+  snd (int_RnsToRing (ieval FromCk (Icopy (Iprod (Irns (Imk [7; 10; 9; 11]) [1; 1; 1; 1])))) [6; 0; 8; 3]) = 1070.
 Proof. vm_compute. reflexivity. Qed.
